@@ -230,6 +230,108 @@ def gen_json_texts(ctx):
     return out
 
 
+def gen_token_texts(ctx, dist):
+    """(where, text) for every base64url text in tokens produced by joserfc: compact
+    segments, JSON members, and the base64url-typed header parameters the library writes
+    itself (iv, tag, p2s, epk.x/y)."""
+    import json as _json, warnings
+    from joserfc import jws, jwe, util
+    from joserfc.jwk import OctKey, RSAKey, ECKey, OKPKey
+    rng = ctx.rng
+    out = []
+    with warnings.catch_warnings():
+        warnings.simplefilter("ignore")
+        keys = {"oct16": OctKey.import_key(bytes(range(16))), "oct24": OctKey.import_key(bytes(range(24))),
+                "oct32": OctKey.import_key(bytes(range(32))), "oct64": OctKey.import_key(bytes(range(64)))}
+        for nm, mk in (("rsa", lambda: RSAKey.generate_key(2048)), ("p256", lambda: ECKey.generate_key("P-256")),
+                       ("p384", lambda: ECKey.generate_key("P-384")), ("p521", lambda: ECKey.generate_key("P-521")),
+                       ("k256", lambda: ECKey.generate_key("secp256k1")), ("ed", lambda: OKPKey.generate_key("Ed25519")),
+                       ("x25519", lambda: OKPKey.generate_key("X25519")), ("x448", lambda: OKPKey.generate_key("X448"))):
+            try:
+                keys[nm] = mk()
+            except Exception:
+                pass
+
+    def hdr_members(where, h):
+        for m in ("iv", "tag", "p2s"):
+            if isinstance(h.get(m), str):
+                out.append(("%s header %s" % (where, m), h[m]))
+        epk = h.get("epk")
+        if isinstance(epk, dict):
+            for m in ("x", "y"):
+                if isinstance(epk.get(m), str):
+                    out.append(("%s header epk.%s" % (where, m), epk[m]))
+
+    def payloads():
+        return [b"", b"a", b"ab", b"abc", bytes(rng.randrange(256) for _ in range(rng.randrange(4, 40)))]
+
+    jws_cfg = [("HS256", "oct32"), ("HS384", "oct64"), ("HS512", "oct64"), ("RS256", "rsa"), ("PS384", "rsa"), ("ES256", "p256"),
+               ("ES384", "p384"), ("ES512", "p521"), ("ES256K", "k256"), ("EdDSA", "ed")]
+    for alg, kn in jws_cfg:
+        if kn not in keys:
+            continue
+        for pl in payloads()[:ctx.scale(3, 5)]:
+            try:
+                t = jws.serialize_compact({"alg": alg}, pl, keys[kn], algorithms=[alg])
+                dist["tokens"] += 1
+                for i, seg in enumerate(t.split(".")):
+                    out.append(("jws compact %s segment %d" % (alg, i), seg))
+                j = jws.serialize_json({"protected": {"alg": alg}, "header": {"kid": "k"}}, pl, keys[kn], algorithms=[alg])
+                dist["tokens"] += 1
+                for m in ("protected", "payload", "signature"):
+                    out.append(("jws flattened %s member %s" % (alg, m), j[m]))
+                g = jws.serialize_json([{"protected": {"alg": alg}}], pl, keys[kn], algorithms=[alg])
+                for m in ("protected", "signature"):
+                    out.append(("jws general %s member %s" % (alg, m), g["signatures"][0][m]))
+                out.append(("jws general %s member payload" % alg, g["payload"]))
+            except Exception as e:
+                dist["tokens_not_produced"] += 1
+                dist.setdefault("tokens_not_produced_why", {}).setdefault("%s/%s: %s" % (alg, kn, type(e).__name__), 0)
+                dist["tokens_not_produced_why"]["%s/%s: %s" % (alg, kn, type(e).__name__)] += 1
+    jwe_cfg = [("dir", "oct16", "A128GCM"), ("dir", "oct32", "A128CBC-HS256"), ("A128KW", "oct16", "A128GCM"), ("A256KW", "oct32", "A256CBC-HS512"),
+               ("A128GCMKW", "oct16", "A128GCM"), ("A192GCMKW", "oct24", "A192CBC-HS384"), ("A256GCMKW", "oct32", "A256GCM"),
+               ("PBES2-HS256+A128KW", "oct16", "A128GCM"), ("PBES2-HS384+A192KW", "oct32", "A128CBC-HS256"), ("PBES2-HS512+A256KW", "oct64", "A256GCM"),
+               ("RSA-OAEP", "rsa", "A128GCM"), ("RSA-OAEP-256", "rsa", "A192GCM"), ("RSA1_5", "rsa", "A128CBC-HS256"),
+               ("ECDH-ES", "p256", "A128GCM"), ("ECDH-ES", "p521", "A256GCM"), ("ECDH-ES", "k256", "A128GCM"), ("ECDH-ES", "x25519", "A128GCM"),
+               ("ECDH-ES+A128KW", "p384", "A128GCM"), ("ECDH-ES+A256KW", "x448", "A256CBC-HS512"), ("ECDH-ES+A192KW", "p521", "A192GCM")]
+    for alg, kn, enc in jwe_cfg:
+        if kn not in keys:
+            continue
+        for pl in payloads()[:ctx.scale(2, 5)]:
+            try:
+                t = jwe.encrypt_compact({"alg": alg, "enc": enc}, pl, keys[kn], algorithms=[alg, enc])
+                dist["tokens"] += 1
+                segs = t.split(".")
+                for i, seg in enumerate(segs):
+                    out.append(("jwe compact %s/%s segment %d" % (alg, enc, i), seg))
+                hdr_members("jwe compact %s/%s" % (alg, enc), _json.loads(util.urlsafe_b64decode(segs[0].encode())))
+                for flat in (True, False):
+                    obj = jwe.GeneralJSONEncryption({"enc": enc}, pl, aad=rng.choice([None, b"aad", b"\xff\xfe"]))
+                    obj.add_recipient({"alg": alg}, keys[kn])
+                    if flat:
+                        obj = jwe.FlattenedJSONEncryption({"enc": enc}, pl, aad=rng.choice([None, b"a", b"\xfb\xff"]))
+                        obj.add_recipient({"alg": alg}, keys[kn])
+                    j = jwe.encrypt_json(obj, None, algorithms=[alg, enc])
+                    dist["tokens"] += 1
+                    kind = "flattened" if flat else "general"
+                    for m in ("protected", "iv", "ciphertext", "tag", "aad", "encrypted_key"):
+                        if isinstance(j.get(m), str):
+                            out.append(("jwe %s %s/%s member %s" % (kind, alg, enc, m), j[m]))
+                    recs = [j] if flat else j.get("recipients", [])
+                    for r in recs:
+                        if isinstance(r.get("encrypted_key"), str):
+                            out.append(("jwe %s %s/%s member encrypted_key" % (kind, alg, enc), r["encrypted_key"]))
+                        if isinstance(r.get("header"), dict):
+                            hdr_members("jwe %s %s/%s recipient" % (kind, alg, enc), r["header"])
+                    if isinstance(j.get("unprotected"), dict):
+                        hdr_members("jwe %s %s/%s unprotected" % (kind, alg, enc), j["unprotected"])
+            except Exception as e:
+                dist["tokens_not_produced"] += 1
+                dist.setdefault("tokens_not_produced_why", {}).setdefault("%s/%s: %s" % (alg, kn, type(e).__name__), 0)
+                dist["tokens_not_produced_why"]["%s/%s: %s" % (alg, kn, type(e).__name__)] += 1
+    return out
+
+
 def gen_native_keys(ctx):
     """(name, joserfc key whose dict view is produced by the EXPORTER, {member: (number, bits|None)}).
     RSA keys are built from chosen private numbers so that d, dp, dq (and, by search, qi)
@@ -258,6 +360,11 @@ def gen_native_keys(ctx):
                     out.append(("%s/%s" % (name, tag), RSAKey.import_key(key.private_bytes(enc, fmt, ser.NoEncryption())), nums))
                 except Exception:
                     pass
+            try:
+                pub = RSAKey.import_key(key.public_key().public_bytes(ser.Encoding.PEM, ser.PublicFormat.SubjectPublicKeyInfo))
+                out.append(("%s/pubpem" % name, pub, {m: v for m, v in nums.items() if m.split("#")[0] in ("n", "e")}))
+            except Exception:
+                pass
         return out
 
     res = []
@@ -323,7 +430,17 @@ def gen_native_keys(ctx):
                     jk = ECKey.import_key(k.private_bytes(ser.Encoding.PEM, ser.PrivateFormat.PKCS8, ser.NoEncryption()))
             except Exception:
                 continue
-            res.append(("ec-%s-%d%s" % (crv, i, "-short-" + "+".join(short) if short else ""), jk, {m: (v, bits) for m, v in vals.items()}))
+            nm = "ec-%s-%d%s" % (crv, i, "-short-" + "+".join(short) if short else "")
+            res.append((nm, jk, {m: (v, bits) for m, v in vals.items()}))
+            # the same key as a PUBLIC-only object (public PEM / DER): the public exporter runs
+            for enc, tag in ((ser.Encoding.PEM, "pubpem"), (ser.Encoding.DER, "pubder")):
+                try:
+                    with warnings.catch_warnings():
+                        warnings.simplefilter("ignore")
+                        pk = ECKey.import_key(k.public_key().public_bytes(enc, ser.PublicFormat.SubjectPublicKeyInfo))
+                    res.append(("%s/%s" % (nm, tag), pk, {m: (v, bits) for m, v in vals.items() if m != "d"}))
+                except Exception:
+                    pass
             if got_short >= ctx.scale(2, 6):
                 break
     return res
@@ -488,6 +605,25 @@ def run(ctx):
                         ctx.violation({"kind": "jwk-fixed-width"},
                                       "member %s of the exported JWK of %s is %d octets, the curve size is %d" % (m, name, len(raw[1]), (bits + 7) // 8),
                                       {"fn": "jwk-member", "key": name, "member": m, "text": txt})
+    # ---- base64url text inside PRODUCED TOKENS (observe_at: segments of produced tokens):
+    # every segment / base64url-typed member the library emits must be the model's encoding
+    # of the octets it decodes to (unpadded, alphabet only)
+    dist.update({"token_texts": 0, "tokens": 0, "tokens_not_produced": 0})
+    for where, txt in gen_token_texts(ctx, dist):
+        ctx.note_case(("token-text", where, txt[:24]))
+        dist["token_texts"] += 1
+        tb = txt.encode("ascii", "replace") if isinstance(txt, str) else bytes(txt)
+        if any(ch not in ALPHA for ch in tb):
+            ctx.violation({"kind": "b64-alphabet"}, "%s of a produced token contains a character outside A-Za-z0-9-_ : %r" % (where, tb[-12:]),
+                          {"fn": "token-text", "where": where, "text": tb.decode("latin1")})
+            continue
+        raw = call(util.urlsafe_b64decode, tb)
+        if raw[0] != "ok":
+            ctx.violation({"kind": "b64-roundtrip"}, "%s of a produced token does not decode: %r" % (where, raw[1]),
+                          {"fn": "token-text", "where": where, "text": tb.decode("latin1")})
+            continue
+        if len(raw[1]) <= 600:
+            add("CEnc %s %s" % (c_hex(raw[1]), c_hex(tb)), ("token-enc", where))
     # ---- fixed-width codec
     for num, bits in gen_encode_int(ctx):
         r = call(util2.encode_int, num, bits)
